@@ -2,7 +2,7 @@
     [Print Assumptions]; [Example]s show non-vacuity and pin the model's behaviour on the
     schedules the property text talks about. *)
 From Coq Require Import Arith Bool List.
-From PV Require Import Pause.Model Pause.Proofs Pause.Mutants.
+From PV Require Import Pause.Model Pause.Proofs Pause.Mutants Pause.ReloadModel Pause.ReloadProofs.
 Import ListNotations.
 
 (** Every schedule (list of atomic steps of any length, over any number of clients) that the
@@ -106,6 +106,64 @@ Theorem c16_mutant_notify_before_store_unsafe : exists st c,
 Proof. exact m2_passes_while_paused. Qed.
 Print Assumptions c16_mutant_notify_before_store_unsafe.
 
+(** * RELOAD (a pool object replaced while sessions hold the old one)
+
+    With the repaired [from_config] the new pool object shares the old one's pause flag and
+    [Notify] ([ReloadShared]): any schedule with such reloads (and sessions re-resolving their pool)
+    is, for the gate, the schedule without them — every session still holds, and the console still
+    addresses, cell 0, which evolves exactly as Pause.Model on the erased schedule. *)
+Theorem c16_reload_shared_is_invisible : forall l st, ~ In ReloadFresh l -> rrun rinit l = Some st ->
+  registered st = 0 /\ (forall c, holds st c = 0) /\ run init (erase l) = Some (cells st 0) /\
+  (gone st = true -> paused (cells st 0) = false /\ apc (cells st 0) = AIdle).
+Proof. exact shared_invisible. Qed.
+Print Assumptions c16_reload_shared_is_invisible.
+
+Theorem c16_no_lost_wakeup_with_reload : forall l st, ~ In ReloadFresh l -> rrun rinit l = Some st ->
+  paused (cells st (registered st)) = false -> apc (cells st (registered st)) = AIdle ->
+  forall c snap, pcs (cells st (holds st c)) c = Waiting snap -> snap < gen (cells st (holds st c)).
+Proof. exact no_lost_wakeup_reload. Qed.
+Print Assumptions c16_no_lost_wakeup_with_reload.
+
+Theorem c16_held_while_paused_with_reload : forall l st, ~ In ReloadFresh l -> rrun rinit l = Some st ->
+  forall c, pcs (cells st (holds st c)) c = Passed ->
+  exists l1 l2 st1, erase l = l1 ++ l2 /\ run init l1 = Some st1 /\ paused st1 = false /\
+                    In (CReg c) l1 /\ ~ In (CReg c) l2.
+Proof. exact held_while_paused_reload. Qed.
+Print Assumptions c16_held_while_paused_with_reload.
+
+(** A RELOAD that removes the pool ([ReloadRemove]: the repaired [from_config] resumes the pool it
+    drops) releases its sessions for good: every session sits on a reachable, un-paused cell with
+    no resume in flight, every suspended client has its wake-up ([c16_client_progress] then takes
+    it past the gate), and while the pool is gone nothing can pause that cell again. *)
+Theorem c16_removed_pool_releases : forall l st, ~ In ReloadFresh l -> rrun rinit l = Some st -> gone st = true ->
+  forall c, reachable (cells st (holds st c)) /\
+            paused (cells st (holds st c)) = false /\ apc (cells st (holds st c)) = AIdle /\
+            (forall snap, pcs (cells st (holds st c)) c = Waiting snap -> snap < gen (cells st (holds st c))).
+Proof. exact removed_pool_releases. Qed.
+Print Assumptions c16_removed_pool_releases.
+
+Theorem c16_gone_pool_stays_unpaused : forall st e st' k, rstep st e = Some st' -> gone st = true ->
+  paused (cells st' k) = paused (cells st k) /\ gen (cells st' k) = gen (cells st k).
+Proof. exact gone_frozen. Qed.
+Print Assumptions c16_gone_pool_stays_unpaused.
+
+(** The code before the repair (fresh flag and [Notify] for a replaced pool): PAUSE, a client is
+    held, RELOAD, RESUME completes on the registered pool — the client still sleeps on the old
+    cell, whose generation no step can change any more.  (Finding C16-RELOAD-WHILE-PAUSED, fixed.) *)
+Theorem c16_reload_fresh_refuted : exists st,
+  rrun rinit fresh_witness = Some st /\
+  paused (cells st (registered st)) = false /\ apc (cells st (registered st)) = AIdle /\
+  holds st 0 <> registered st /\
+  pcs (cells st (holds st 0)) 0 = Waiting 0 /\ gen (cells st (holds st 0)) = 0 /\
+  rstep st (Base (CWake 0)) = None.
+Proof. exact reload_fresh_strands. Qed.
+Print Assumptions c16_reload_fresh_refuted.
+
+Theorem c16_detached_cell_frozen : forall st e st' k, rstep st e = Some st' -> k <> registered st ->
+  gen (cells st' k) = gen (cells st k) /\ paused (cells st' k) = paused (cells st k).
+Proof. exact detached_cell_frozen. Qed.
+Print Assumptions c16_detached_cell_frozen.
+
 (** * Non-vacuity / spec validation *)
 
 Definition final (n : nat) (l : list ev) : option (bool * bool * list vpc) :=
@@ -168,4 +226,30 @@ Proof. vm_compute. reflexivity. Qed.
 (** The mutants' witnesses executed on the REAL protocol order are harmless. *)
 Example ex_real_order_on_m2_witness :
   final 1 [APause; CReg 0; CLoad 0; AStore; ANotify; CDecide 0] = Some (false, false, [VPassed]).
+Proof. vm_compute. reflexivity. Qed.
+
+(** The regression scenario of the finding on the repaired model: held client, RELOAD (shared),
+    RESUME, a second session's first query after the RESUME. *)
+Example ex_reload_shared_releases :
+  match rrun rinit [Base APause; Base (CReg 0); Base (CLoad 0); Base (CDecide 0); ReloadShared;
+                    Base AStore; Base ANotify; Base (CWake 0); Refresh 0;
+                    Base (CReg 1); Base (CLoad 1); Base (CDecide 1)] with
+  | Some st => (view 2 (cells st 0), registered st, holds st 0, holds st 1) = ((false, false, [VPassed; VPassed]), 0, 0, 0)
+  | None => False end.
+Proof. vm_compute. reflexivity. Qed.
+
+(** ... and the pause survives the reload. *)
+Example ex_reload_shared_keeps_pause :
+  match rrun rinit [Base APause; ReloadShared; Base (CReg 0); Base (CLoad 0); Base (CDecide 0)] with
+  | Some st => view 1 (cells st (registered st)) = (true, false, [VBlocked])
+  | None => False end.
+Proof. vm_compute. reflexivity. Qed.
+
+(** PAUSE; a client is held; RELOAD removes the pool: the client is released (and will be told
+    that its pool is gone); PAUSE / RESUME can no longer address the pool. *)
+Example ex_reload_remove_releases :
+  match rrun rinit [Base APause; Base (CReg 0); Base (CLoad 0); Base (CDecide 0); ReloadRemove; Base (CWake 0)] with
+  | Some st => (view 1 (cells st (holds st 0)), gone st, rstep st (Base APause), rstep st (Base AStore))
+               = ((false, false, [VPassed]), true, None, None)
+  | None => False end.
 Proof. vm_compute. reflexivity. Qed.
